@@ -23,5 +23,5 @@ for d in seeded/*/; do
   fi
   git -C /repo worktree remove --force $wt; git -C /repo worktree prune
 done
-rm -rf run-alt harness/go.alt-*
+for d in run-alt/*; do [ "$(basename $d)" = "1a0584ae" ] || rm -rf $d; done  # (1a0584ae = tools/automut.py scratch tree, may be running)
 echo "caught=$pass missed=$miss"
